@@ -1,6 +1,1399 @@
-//! C18 monitor (not built yet)
-use vcore::{Args, Report};
+//! C18 — peer transport parameters are validated and bound to on-wire connection IDs.
+//!
+//! Four oracles, all driven through the calls `qconnection/src/tls.rs` and
+//! `qconnection/src/space/initial.rs` make:
+//!
+//! * **parse table** (one-directional): `Parameters<Role>::parse_from_bytes(blob) = Ok` implies
+//!   that the blob is not in the MUST-reject set written down below from RFC 9000 §7.4 / §18.2
+//!   (and RFC 9287 for grease_quic_bit).  The MUST-reject predicate is computed from the blob
+//!   *bytes* by an independent TLV reader, so a replay needs only (role, blob).  If a blob with
+//!   several defects is accepted, every one of its defect checks failed to fire, so one
+//!   violation per defect class is reported.
+//!   A rejection must carry `ErrorKind::TransportParameter`.
+//!   Sanity clause: blobs that are inside the unambiguously legal region (library `handy` sets,
+//!   generated legal sets, unknown / grease ids, values exactly at the bounds) must be accepted,
+//!   and the accepted set must hold exactly the values of the blob.
+//!   Not judged in either direction: duplicates (SHOULD), `max_udp_payload_size > 65527`.
+//!   Panics while parsing are C03's verdict: the blob is skipped and counted.
+//! * **binding**: `Parameters::{recv_remote_params, initial_scid_from_peer_need_equal}` in both
+//!   orders, CIDs equal / unequal; ready iff both arrived and match, mismatch ⇒
+//!   `TransportParameter`, never ready before both, waiters woken.
+//! * **idle timeout**: `negotiated_max_idle_timeout` = min non-zero of both sides.
+//! * **0-RTT**: `remembered.is_0rtt_accepted(new)` ⇔ all eight remembered limits ≤ new ones.
+use std::{
+    collections::BTreeSet,
+    sync::{
+        Arc,
+        atomic::{AtomicUsize, Ordering},
+    },
+    task::{Context, Poll, Wake, Waker},
+    time::Duration,
+};
 
-pub fn run(_args: &Args, rep: &mut Report) {
-    rep.inconclusive("monitor not built yet");
+use bytes::Bytes;
+use qbase::{
+    cid::ConnectionId,
+    error::{ErrorKind, QuicError},
+    param::{
+        ArcParameters, ClientParameters, ParameterId, Parameters, ServerParameters, WriteParameters,
+        handy,
+    },
+    token::ResetToken,
+    varint::VarInt,
+};
+use serde_json::{Value, json};
+use vcore::{Args, Report, Rng, hex, unhex};
+
+// ------------------------------------------------------------------------------------------------
+// the table (RFC 9000 §18.2, RFC 9221 §3, RFC 9287 §3, plus the library's own client_name)
+// ------------------------------------------------------------------------------------------------
+
+#[derive(Clone, Copy, PartialEq, Eq, Debug)]
+enum Ty {
+    Var,
+    Flag,
+    Cid,
+    Token,
+    Pref,
+    Bytes,
+}
+
+#[derive(Clone, Copy, PartialEq, Eq, Debug)]
+enum Sender {
+    Client,
+    Server,
+}
+
+impl Sender {
+    fn name(self) -> &'static str {
+        match self {
+            Sender::Client => "client",
+            Sender::Server => "server",
+        }
+    }
+    fn from_name(s: &str) -> Sender {
+        if s == "server" { Sender::Server } else { Sender::Client }
+    }
+}
+
+struct Known {
+    id: u64,
+    name: &'static str,
+    ty: Ty,
+    /// may only be sent by a server
+    server_only: bool,
+    /// may only be sent by a client
+    client_only: bool,
+}
+
+const fn k(id: u64, name: &'static str, ty: Ty, server_only: bool, client_only: bool) -> Known {
+    Known { id, name, ty, server_only, client_only }
+}
+
+const KNOWN: [Known; 20] = [
+    k(0x00, "original_destination_connection_id", Ty::Cid, true, false),
+    k(0x01, "max_idle_timeout", Ty::Var, false, false),
+    k(0x02, "stateless_reset_token", Ty::Token, true, false),
+    k(0x03, "max_udp_payload_size", Ty::Var, false, false),
+    k(0x04, "initial_max_data", Ty::Var, false, false),
+    k(0x05, "initial_max_stream_data_bidi_local", Ty::Var, false, false),
+    k(0x06, "initial_max_stream_data_bidi_remote", Ty::Var, false, false),
+    k(0x07, "initial_max_stream_data_uni", Ty::Var, false, false),
+    k(0x08, "initial_max_streams_bidi", Ty::Var, false, false),
+    k(0x09, "initial_max_streams_uni", Ty::Var, false, false),
+    k(0x0a, "ack_delay_exponent", Ty::Var, false, false),
+    k(0x0b, "max_ack_delay", Ty::Var, false, false),
+    k(0x0c, "disable_active_migration", Ty::Flag, false, false),
+    k(0x0d, "preferred_address", Ty::Pref, true, false),
+    k(0x0e, "active_connection_id_limit", Ty::Var, false, false),
+    k(0x0f, "initial_source_connection_id", Ty::Cid, false, false),
+    k(0x10, "retry_source_connection_id", Ty::Cid, true, false),
+    k(0x20, "max_datagram_frame_size", Ty::Var, false, false),
+    k(0x2ab2, "grease_quic_bit", Ty::Flag, false, false),
+    k(0xffee, "client_name", Ty::Bytes, false, true),
+];
+
+fn known(id: u64) -> Option<&'static Known> {
+    KNOWN.iter().find(|k| k.id == id)
+}
+
+/// durations are carried as milliseconds
+fn is_duration(id: u64) -> bool {
+    id == 0x01 || id == 0x0b
+}
+
+const P60: u64 = 1 << 60;
+const VMAX: u64 = (1 << 62) - 1;
+
+/// value rule of RFC 9000 §18.2 for an integer parameter: Some(reason) if the value MUST be rejected
+fn value_must_reject(id: u64, v: u64) -> Option<&'static str> {
+    match id {
+        0x03 if v < 1200 => Some("max_udp_payload_size-lt-1200"),
+        0x08 if v > P60 => Some("initial_max_streams_bidi-gt-2pow60"),
+        0x09 if v > P60 => Some("initial_max_streams_uni-gt-2pow60"),
+        0x0a if v > 20 => Some("ack_delay_exponent-gt-20"),
+        0x0b if v >= 1 << 14 => Some("max_ack_delay-ge-2pow14"),
+        0x0e if v < 2 => Some("active_connection_id_limit-lt-2"),
+        _ => None,
+    }
+}
+
+/// values the RFC does not call invalid but the library may refuse: judged in neither direction
+fn value_dont_care(id: u64, v: u64) -> bool {
+    id == 0x03 && v > 65527
+}
+
+// ------------------------------------------------------------------------------------------------
+// independent wire reader / writer
+// ------------------------------------------------------------------------------------------------
+
+fn vi(b: &[u8]) -> Option<(u64, usize)> {
+    let first = *b.first()?;
+    let n = 1usize << (first >> 6);
+    if b.len() < n {
+        return None;
+    }
+    let mut v = (first & 0x3f) as u64;
+    for x in &b[1..n] {
+        v = (v << 8) | *x as u64;
+    }
+    Some((v, n))
+}
+
+fn vi_min_width(v: u64) -> usize {
+    if v < 1 << 6 {
+        1
+    } else if v < 1 << 14 {
+        2
+    } else if v < 1 << 30 {
+        4
+    } else {
+        8
+    }
+}
+
+/// width 0 = minimal
+fn put_vi(out: &mut Vec<u8>, v: u64, width: usize) {
+    let w = if width == 0 { vi_min_width(v) } else { width.max(vi_min_width(v)) };
+    let tag = match w {
+        1 => 0u8,
+        2 => 1,
+        4 => 2,
+        _ => 3,
+    };
+    let be = v.to_be_bytes();
+    let start = out.len();
+    out.extend_from_slice(&be[8 - w..]);
+    out[start] |= tag << 6;
+}
+
+fn vi_bytes(v: u64, width: usize) -> Vec<u8> {
+    let mut o = vec![];
+    put_vi(&mut o, v, width);
+    o
+}
+
+type Ent = (u64, Vec<u8>);
+
+fn encode(ents: &[Ent]) -> Vec<u8> {
+    let mut o = vec![];
+    for (id, body) in ents {
+        put_vi(&mut o, *id, 0);
+        put_vi(&mut o, body.len() as u64, 0);
+        o.extend_from_slice(body);
+    }
+    o
+}
+
+/// id / length varints in random (possibly non-minimal) widths
+fn encode_wide(ents: &[Ent], rng: &mut Rng) -> Vec<u8> {
+    let mut o = vec![];
+    for (id, body) in ents {
+        put_vi(&mut o, *id, [0, 1, 2, 4, 8][rng.usize(5)]);
+        put_vi(&mut o, body.len() as u64, [0, 1, 2, 4, 8][rng.usize(5)]);
+        o.extend_from_slice(body);
+    }
+    o
+}
+
+fn tlv(mut b: &[u8]) -> Result<Vec<(u64, &[u8])>, ()> {
+    let mut out = vec![];
+    while !b.is_empty() {
+        let (id, n) = vi(b).ok_or(())?;
+        b = &b[n..];
+        let (len, n) = vi(b).ok_or(())?;
+        b = &b[n..];
+        if (b.len() as u64) < len {
+            return Err(());
+        }
+        out.push((id, &b[..len as usize]));
+        b = &b[len as usize..];
+    }
+    Ok(out)
+}
+
+/// The oracle's reading of one blob.
+struct Judged {
+    /// defect classes that each require rejection (empty = not in MUST-reject)
+    reasons: Vec<String>,
+    /// inside the unambiguously legal region (must be accepted)
+    must_accept: bool,
+}
+
+fn judge(sender: Sender, blob: &[u8]) -> Judged {
+    let Ok(ents) = tlv(blob) else {
+        return Judged { reasons: vec!["truncated-tlv".into()], must_accept: false };
+    };
+    let mut reasons: BTreeSet<String> = BTreeSet::new();
+    let mut dont_care = false;
+    let mut seen = BTreeSet::new();
+    for (id, body) in &ents {
+        if !seen.insert(*id) {
+            dont_care = true; // duplicates: SHOULD-level
+        }
+        let Some(kn) = known(*id) else { continue };
+        if sender == Sender::Client && kn.server_only {
+            reasons.insert(format!("role:{}-from-client", kn.name));
+            continue;
+        }
+        if sender == Sender::Server && kn.client_only {
+            reasons.insert(format!("role:{}-from-server", kn.name));
+            continue;
+        }
+        match kn.ty {
+            Ty::Var => match vi(body) {
+                Some((v, n)) if n == body.len() => {
+                    if let Some(r) = value_must_reject(*id, v) {
+                        reasons.insert(r.to_string());
+                    }
+                    if value_dont_care(*id, v) {
+                        dont_care = true;
+                    }
+                }
+                _ => {
+                    reasons.insert(format!("length:varint:{}", kn.name));
+                }
+            },
+            Ty::Flag => {
+                if !body.is_empty() {
+                    reasons.insert(format!("length:flag-with-body:{}", kn.name));
+                }
+            }
+            Ty::Cid => {
+                if body.len() > 20 {
+                    reasons.insert(format!("length:cid-gt-20:{}", kn.name));
+                }
+            }
+            Ty::Token => {
+                if body.len() != 16 {
+                    reasons.insert("length:reset-token-not-16".to_string());
+                }
+            }
+            Ty::Pref => {
+                // 4+2, 16+2, cid len (1), cid, token (16)
+                if body.len() < 25 {
+                    reasons.insert("length:preferred_address".to_string());
+                } else {
+                    let cl = body[24] as usize;
+                    if cl > 20 || body.len() != 25 + cl + 16 {
+                        reasons.insert("length:preferred_address".to_string());
+                    } else if cl == 0 {
+                        reasons.insert("preferred_address-zero-length-cid".to_string());
+                    }
+                }
+            }
+            Ty::Bytes => {}
+        }
+    }
+    if !seen.contains(&0x0f) {
+        reasons.insert("missing:initial_source_connection_id".into());
+    }
+    if sender == Sender::Server && !seen.contains(&0x00) {
+        reasons.insert("missing:original_destination_connection_id".into());
+    }
+    let must_accept = reasons.is_empty() && !dont_care;
+    Judged { reasons: reasons.into_iter().collect(), must_accept }
+}
+
+// ------------------------------------------------------------------------------------------------
+// the code under test
+// ------------------------------------------------------------------------------------------------
+
+enum Parsed {
+    C(ClientParameters),
+    S(ServerParameters),
+}
+
+impl Parsed {
+    fn get<V: TryFrom<qbase::param::ParameterValue>>(&self, id: ParameterId) -> Option<V> {
+        match self {
+            Parsed::C(p) => p.get(id),
+            Parsed::S(p) => p.get(id),
+        }
+    }
+    fn contains(&self, id: ParameterId) -> bool {
+        match self {
+            Parsed::C(p) => p.contains(id),
+            Parsed::S(p) => p.contains(id),
+        }
+    }
+}
+
+fn parse(sender: Sender, blob: &[u8]) -> Result<Result<Parsed, QuicError>, vcore::panics::PanicRecord> {
+    vcore::panics::catch(|| match sender {
+        Sender::Client => ClientParameters::parse_from_bytes(blob).map(Parsed::C),
+        Sender::Server => ServerParameters::parse_from_bytes(blob).map(Parsed::S),
+    })
+}
+
+fn pid(id: u64) -> ParameterId {
+    ParameterId::try_from(VarInt::from_u64(id).unwrap()).expect("table id is a library id")
+}
+
+/// accepted set must hold exactly what the blob says (only called for must-accept blobs: no duplicates)
+fn fidelity(p: &Parsed, blob: &[u8]) -> Option<(String, String)> {
+    let ents = tlv(blob).ok()?;
+    for kn in KNOWN.iter() {
+        let id = pid(kn.id);
+        let ent = ents.iter().find(|(i, _)| *i == kn.id);
+        match ent {
+            None => {
+                if p.contains(id) {
+                    return Some((kn.name.to_string(), "present in the accepted set but absent from the blob".into()));
+                }
+            }
+            Some((_, body)) => {
+                if !p.contains(id) {
+                    return Some((kn.name.to_string(), "absent from the accepted set but present in the blob".into()));
+                }
+                let ok = match kn.ty {
+                    Ty::Var => {
+                        let v = vi(body).unwrap().0;
+                        if is_duration(kn.id) {
+                            p.get::<Duration>(id) == Some(Duration::from_millis(v))
+                        } else {
+                            p.get::<VarInt>(id).map(|x| x.into_u64()) == Some(v)
+                        }
+                    }
+                    Ty::Flag => p.get::<bool>(id) == Some(true),
+                    Ty::Cid => p.get::<ConnectionId>(id) == Some(ConnectionId::from_slice(body)),
+                    Ty::Token => p.get::<ResetToken>(id) == Some(ResetToken::new(body)),
+                    Ty::Bytes => p.get::<Bytes>(id).as_deref() == Some(&body[..]),
+                    Ty::Pref => match p.get::<qbase::param::preferred_address::PreferredAddress>(id) {
+                        Some(a) => {
+                            let cl = body[24] as usize;
+                            a.address_v4().ip().octets() == body[0..4]
+                                && a.address_v4().port() == u16::from_be_bytes([body[4], body[5]])
+                                && a.address_v6().ip().octets() == body[6..22]
+                                && a.address_v6().port() == u16::from_be_bytes([body[22], body[23]])
+                                && a.connection_id() == ConnectionId::from_slice(&body[25..25 + cl])
+                                && a.stateless_reset_token() == ResetToken::new(&body[25 + cl..])
+                        }
+                        None => false,
+                    },
+                };
+                if !ok {
+                    return Some((kn.name.to_string(), format!("accepted value differs from the blob's value {}", hex(body))));
+                }
+            }
+        }
+    }
+    None
+}
+
+/// which single entry, when removed, turns a wrongly rejected legal blob into an accepted one
+fn culprit(sender: Sender, blob: &[u8]) -> String {
+    let Ok(ents) = tlv(blob) else { return "unparsable".into() };
+    for skip in 0..ents.len() {
+        let (id, _) = ents[skip];
+        if id == 0x0f || (sender == Sender::Server && id == 0x00) {
+            continue;
+        }
+        let rest: Vec<Ent> = ents.iter().enumerate().filter(|(i, _)| *i != skip).map(|(_, (i, b))| (*i, b.to_vec())).collect();
+        if let Ok(Ok(_)) = parse(sender, &encode(&rest)) {
+            return match known(id) {
+                Some(kn) => kn.name.to_string(),
+                None => "unknown-id".to_string(),
+            };
+        }
+    }
+    "no-single-entry".into()
+}
+
+fn kind_name(k: ErrorKind) -> String {
+    format!("{k:?}")
+}
+
+/// Evaluate one blob against the parse-table oracle.
+fn eval_blob(rep: &mut Report, sender: Sender, blob: &[u8], family: &str) {
+    rep.evaluations += 1;
+    rep.count("parse_blobs");
+    let j = judge(sender, blob);
+    let replay = || json!({"kind": "parse", "sender": sender.name(), "blob": hex(blob), "family": family});
+    if !j.reasons.is_empty() {
+        rep.count("parse_must_reject_blobs");
+        for r in &j.reasons {
+            // evidence: which defect classes were actually exercised
+            rep.set("must_reject_classes", vcore::fnv_str(r));
+        }
+    } else if j.must_accept {
+        rep.count("parse_must_accept_blobs");
+    } else {
+        rep.count("parse_unjudged_blobs");
+    }
+    match parse(sender, blob) {
+        Err(p) => {
+            // decoding panics are C03's verdict; the blob is skipped here
+            rep.count("parse_panics_skipped");
+            let loc = vcore::panics::short_location(&p.location);
+            rep.set("parse_panic_locations", vcore::fnv_str(&loc));
+            let note = format!("parse panic skipped (C03's verdict) at {loc}");
+            if !rep.notes.contains(&note) {
+                rep.notes.push(note);
+            }
+        }
+        Ok(Ok(parsed)) => {
+            rep.count("parse_accepted");
+            for r in &j.reasons {
+                rep.violation(
+                    format!("C18.accept-must-reject:{r}"),
+                    format!("{} blob {} accepted by parse_from_bytes although RFC 9000 requires TRANSPORT_PARAMETER_ERROR ({r}; family {family})", sender.name(), hex(blob)),
+                    replay(),
+                );
+            }
+            if j.must_accept {
+                rep.count("parse_must_accept_accepted");
+                if let Some((name, what)) = fidelity(&parsed, blob) {
+                    rep.violation(format!("C18.accept.value-mismatch:{name}"), format!("{} blob {}: {name} {what}", sender.name(), hex(blob)), replay());
+                }
+            }
+        }
+        Ok(Err(e)) => {
+            rep.count("parse_rejected");
+            if !j.reasons.is_empty() {
+                rep.count("parse_must_reject_rejected");
+            }
+            if e.kind() != ErrorKind::TransportParameter {
+                rep.violation(
+                    format!("C18.error-kind:{}", kind_name(e.kind())),
+                    format!("{} blob {} rejected with {:?} instead of TransportParameter: {}", sender.name(), hex(blob), e.kind(), e.reason()),
+                    replay(),
+                );
+            }
+            if j.must_accept {
+                let c = culprit(sender, blob);
+                rep.violation(
+                    format!("C18.reject-legal:{c}"),
+                    format!("legal {} blob {} rejected: {} (family {family})", sender.name(), hex(blob), e.reason()),
+                    replay(),
+                );
+            }
+        }
+    }
+}
+
+// ------------------------------------------------------------------------------------------------
+// blob generators
+// ------------------------------------------------------------------------------------------------
+
+const VALS: [u64; 34] = [
+    0,
+    1,
+    2,
+    3,
+    19,
+    20,
+    21,
+    63,
+    64,
+    1199,
+    1200,
+    1201,
+    16382,
+    16383,
+    16384,
+    16385,
+    65526,
+    65527,
+    65528,
+    (1 << 30) - 1,
+    1 << 30,
+    (1 << 30) + 1,
+    (1 << 32) - 1,
+    1 << 32,
+    P60 - 1,
+    P60,
+    P60 + 1,
+    P60 + 2,
+    1 << 61,
+    VMAX - 1,
+    VMAX,
+    25,
+    1000,
+    30000,
+];
+
+/// a legal integer value for `id` (inside the unambiguous region)
+fn legal_value(rng: &mut Rng, id: u64) -> u64 {
+    let (lo, hi) = match id {
+        0x03 => (1200, 65527),
+        0x08 | 0x09 => (0, P60),
+        0x0a => (0, 20),
+        0x0b => (0, (1 << 14) - 1),
+        0x0e => (2, VMAX),
+        _ => (0, VMAX),
+    };
+    match rng.below(4) {
+        0 => lo,
+        1 => hi,
+        2 => lo + rng.below((hi - lo).min(100) + 1),
+        _ => {
+            let v = rng.varint_boundary();
+            if v < lo || v > hi { lo + rng.below(hi - lo + 1) } else { v }
+        }
+    }
+}
+
+fn rand_cid(rng: &mut Rng, min: usize) -> Vec<u8> {
+    let l = match rng.below(5) {
+        0 => min,
+        1 => 20,
+        2 => 8,
+        _ => rng.range(min as u64, 20) as usize,
+    };
+    rng.bytes(l)
+}
+
+fn pref_body(rng: &mut Rng, cid_len: usize) -> Vec<u8> {
+    let mut b = rng.bytes(24);
+    b.push(cid_len as u8);
+    b.extend(rng.bytes(cid_len));
+    b.extend(rng.bytes(16));
+    b
+}
+
+fn legal_body(rng: &mut Rng, kn: &Known) -> Vec<u8> {
+    match kn.ty {
+        Ty::Var => {
+            let v = legal_value(rng, kn.id);
+            vi_bytes(v, [0, 0, 1, 2, 4, 8][rng.usize(6)])
+        }
+        Ty::Flag => vec![],
+        Ty::Cid => rand_cid(rng, 0),
+        Ty::Token => rng.bytes(16),
+        Ty::Pref => {
+            let l = rng.range(1, 20) as usize;
+            pref_body(rng, l)
+        }
+        Ty::Bytes => {
+            let l = rng.below(40) as usize;
+            rng.bytes(l)
+        }
+    }
+}
+
+fn allowed(sender: Sender, kn: &Known) -> bool {
+    !(sender == Sender::Client && kn.server_only) && !(sender == Sender::Server && kn.client_only)
+}
+
+/// every id the sender may send, each with a legal value
+fn full_set(rng: &mut Rng, sender: Sender) -> Vec<Ent> {
+    KNOWN.iter().filter(|k| allowed(sender, k)).map(|k| (k.id, legal_body(rng, k))).collect()
+}
+
+/// only the mandatory ids
+fn minimal_set(rng: &mut Rng, sender: Sender) -> Vec<Ent> {
+    let mut v = vec![(0x0f, rand_cid(rng, 0))];
+    if sender == Sender::Server {
+        v.push((0x00, rand_cid(rng, 0)));
+    }
+    v
+}
+
+fn unknown_id(rng: &mut Rng) -> u64 {
+    loop {
+        let id = match rng.below(5) {
+            0 => 27 + 31 * rng.below(1 << 20),                    // reserved grease ids 31*N+27
+            1 => 27 + 31 * rng.below((VMAX - 27) / 31),           // .. over the whole range
+            2 => rng.range(0x11, 0x1f),                           // neighbours of the defined ids
+            3 => *rng.pick(&[0x21u64, 0x2ab1, 0x2ab3, 0xffed, 0xffef, 0x3f, 0x40, 0x3fff, 0x4000, VMAX]),
+            _ => rng.varint_boundary(),
+        };
+        if known(id).is_none() && id <= VMAX {
+            return id;
+        }
+    }
+}
+
+/// a body for `kn` carrying one defect of a random kind (or a legal body if the type has none)
+fn defect_body(rng: &mut Rng, kn: &Known) -> Vec<u8> {
+    match kn.ty {
+        Ty::Var => match rng.below(5) {
+            0 | 1 => {
+                // value beyond a bound where the id has one
+                let v = match kn.id {
+                    0x03 => *rng.pick(&[0u64, 1, 1199, 1000, 63]),
+                    0x08 | 0x09 => *rng.pick(&[P60 + 1, P60 + 2, 1 << 61, VMAX]),
+                    0x0a => *rng.pick(&[21u64, 22, 63, 64, 255, VMAX]),
+                    0x0b => *rng.pick(&[16384u64, 16385, 1 << 30, VMAX]),
+                    0x0e => rng.below(2),
+                    _ => return vi_bytes(rng.varint_boundary(), 0),
+                };
+                vi_bytes(v, [0, 8][rng.usize(2)])
+            }
+            2 => vec![],                                           // empty body
+            3 => {
+                // varint followed by trailing bytes
+                let mut b = vi_bytes(legal_value(rng, kn.id), 0);
+                let n = rng.range(1, 3) as usize;
+                b.extend(rng.bytes(n));
+                b
+            }
+            _ => {
+                // body shorter than its own varint prefix says
+                let w = *rng.pick(&[2usize, 4, 8]);
+                let mut b = vi_bytes(legal_value(rng, kn.id), w);
+                let w = b.len();
+                b.truncate(rng.range(1, w as u64 - 1) as usize);
+                b
+            }
+        },
+        Ty::Flag => {
+            let n = rng.range(1, 4) as usize;
+            rng.bytes(n)
+        }
+        Ty::Cid => {
+            let n = rng.range(21, 40) as usize;
+            rng.bytes(n)
+        }
+        Ty::Token => {
+            let l = *rng.pick(&[0usize, 1, 15, 17, 32]);
+            rng.bytes(l)
+        }
+        Ty::Pref => match rng.below(4) {
+            0 => pref_body(rng, 0),
+            1 => {
+                let mut b = pref_body(rng, 8);
+                b.pop();
+                b
+            }
+            2 => {
+                let mut b = pref_body(rng, 8);
+                b.push(0);
+                b
+            }
+            _ => {
+                let mut b = pref_body(rng, 20);
+                b[24] = 21;
+                b.push(7);
+                b
+            }
+        },
+        Ty::Bytes => rng.bytes(3),
+    }
+}
+
+/// Deterministic table part; `idx % shards == shard` striding.
+fn table(rep: &mut Report, rng0: &Rng, shard: u64, shards: u64) {
+    let mut idx = 0u64;
+    let mine = |idx: &mut u64| {
+        *idx += 1;
+        (*idx - 1) % shards == shard
+    };
+    for sender in [Sender::Client, Sender::Server] {
+        // the same base sets in every shard (rng0 cloned), so striding partitions one enumeration
+        let mut rng = rng0.clone();
+        let full = full_set(&mut rng, sender);
+        let n = full.len();
+
+        // A. presence: all single and double omissions from the full set, and the full set itself
+        if mine(&mut idx) {
+            eval_blob(rep, sender, &encode(&full), "full");
+        }
+        for a in 0..n {
+            if mine(&mut idx) {
+                let e: Vec<Ent> = full.iter().enumerate().filter(|(i, _)| *i != a).map(|(_, e)| e.clone()).collect();
+                eval_blob(rep, sender, &encode(&e), "single-omission");
+                rep.count("omission_cases");
+            }
+            for b in a + 1..n {
+                if mine(&mut idx) {
+                    let e: Vec<Ent> = full.iter().enumerate().filter(|(i, _)| *i != a && *i != b).map(|(_, e)| e.clone()).collect();
+                    eval_blob(rep, sender, &encode(&e), "double-omission");
+                    rep.count("omission_cases");
+                }
+            }
+        }
+        // each id alone / with the mandatory ones only (includes role-swapped ids: all 20 ids for both senders)
+        for kn in KNOWN.iter() {
+            if mine(&mut idx) {
+                let body = legal_body(&mut rng.fork(kn.id), kn);
+                eval_blob(rep, sender, &encode(&[(kn.id, body.clone())]), "single-id");
+                let mut e = minimal_set(&mut rng.fork(kn.id ^ 0x55), sender);
+                if !e.iter().any(|(i, _)| *i == kn.id) {
+                    e.push((kn.id, body));
+                }
+                eval_blob(rep, sender, &encode(&e), "minimal-plus-one");
+                if !allowed(sender, kn) {
+                    rep.count("role_swapped_cases");
+                }
+            }
+        }
+        // empty blob and mandatory-only blob
+        if mine(&mut idx) {
+            eval_blob(rep, sender, &[], "empty");
+            eval_blob(rep, sender, &encode(&minimal_set(&mut rng.fork(1), sender)), "minimal");
+        }
+
+        // B. integer values at and beyond every bound, each varint width, in the minimal and in the full set
+        for kn in KNOWN.iter().filter(|k| k.ty == Ty::Var) {
+            for v in VALS {
+                for w in [1usize, 2, 4, 8] {
+                    if w < vi_min_width(v) {
+                        continue;
+                    }
+                    if !mine(&mut idx) {
+                        continue;
+                    }
+                    rep.count("bound_value_cases");
+                    let body = vi_bytes(v, w);
+                    let mut e = minimal_set(&mut rng.fork(v ^ kn.id), sender);
+                    e.push((kn.id, body.clone()));
+                    eval_blob(rep, sender, &encode(&e), "bound-value-minimal");
+                    let e: Vec<Ent> = full.iter().map(|(i, b)| if *i == kn.id { (*i, body.clone()) } else { (*i, b.clone()) }).collect();
+                    eval_blob(rep, sender, &encode(&e), "bound-value-full");
+                }
+            }
+        }
+
+        // C. body lengths 0..=44 for every known id (random content), in the minimal set
+        for kn in KNOWN.iter() {
+            for len in 0..=44usize {
+                if !mine(&mut idx) {
+                    continue;
+                }
+                rep.count("length_cases");
+                let mut r = rng.fork(kn.id * 64 + len as u64);
+                let mut body = r.bytes(len);
+                if kn.ty == Ty::Var && len > 0 && r.bool() {
+                    // make the first byte announce a width that is / is not the body length
+                    body[0] = (body[0] & 0x3f) | ((r.below(4) as u8) << 6);
+                }
+                if kn.ty == Ty::Pref && len >= 25 && r.bool() {
+                    body[24] = (len as i64 - 41).clamp(0, 255) as u8; // consistent cid length when possible
+                }
+                let mut e: Vec<Ent> = minimal_set(&mut r, sender).into_iter().filter(|(i, _)| *i != kn.id).collect();
+                e.push((kn.id, body));
+                eval_blob(rep, sender, &encode(&e), "body-length");
+            }
+        }
+
+        // F. truncation: every strict prefix of the full blob and of a minimal blob
+        let blob = encode(&full);
+        for cut in 0..blob.len() {
+            if mine(&mut idx) {
+                rep.count("truncation_cases");
+                eval_blob(rep, sender, &blob[..cut], "prefix-of-full");
+            }
+        }
+    }
+}
+
+/// the library's own parameter sets, written by the library's own encoder
+fn handy_sets(rep: &mut Report, rng: &mut Rng) {
+    for round in 0..8 {
+        let iscid = ConnectionId::from_slice(&rand_cid(rng, 0));
+        let odcid = ConnectionId::from_slice(&rand_cid(rng, 0));
+        let mut c = handy::client_parameters();
+        c.set(ParameterId::InitialSourceConnectionId, iscid).unwrap();
+        if round % 2 == 1 {
+            c.set(ParameterId::MaxDatagramFrameSize, 1200u32).unwrap();
+            c.set(ParameterId::ClientName, "client.example".to_string()).unwrap();
+        }
+        let mut buf: Vec<u8> = vec![];
+        buf.put_parameters(&c);
+        eval_blob(rep, Sender::Client, &buf, "handy-client");
+        if let Ok(Ok(Parsed::C(p))) = parse(Sender::Client, &buf) {
+            if p != c {
+                rep.violation("C18.accept.value-mismatch:handy-client", format!("handy client set does not survive its own encoding: {}", hex(&buf)), json!({"kind":"parse","sender":"client","blob":hex(&buf),"family":"handy-client"}));
+            }
+        }
+        let mut s = handy::server_parameters();
+        s.set(ParameterId::InitialSourceConnectionId, iscid).unwrap();
+        s.set(ParameterId::OriginalDestinationConnectionId, odcid).unwrap();
+        if round % 2 == 1 {
+            s.set(ParameterId::MaxDatagramFrameSize, 65535u32).unwrap();
+            s.set(ParameterId::StatelessResetToken, ResetToken::new(&rng.bytes(16))).unwrap();
+        }
+        let mut buf: Vec<u8> = vec![];
+        buf.put_parameters(&s);
+        eval_blob(rep, Sender::Server, &buf, "handy-server");
+        rep.add("handy_sets", 2);
+    }
+}
+
+/// random blob: mostly legal entries, a few defects, unknown ids, duplicates, shuffled
+fn random_blob(rng: &mut Rng, sender: Sender) -> (Vec<u8>, &'static str) {
+    let style = rng.below(10);
+    let mut e: Vec<Ent> = vec![];
+    // subset of the allowed ids
+    let keep = rng.range(0, 100);
+    for kn in KNOWN.iter().filter(|k| allowed(sender, k)) {
+        let mandatory = kn.id == 0x0f || (kn.id == 0x00 && sender == Sender::Server);
+        let p_keep = if mandatory { 97 } else { keep };
+        if rng.below(100) < p_keep {
+            e.push((kn.id, legal_body(rng, kn)));
+        }
+    }
+    let family = match style {
+        0..=3 => "random-legal",
+        4 | 5 => {
+            // unknown / grease ids with arbitrary bodies
+            for _ in 0..rng.range(1, 4) {
+                let l = match rng.below(4) {
+                    0 => 0,
+                    1 => rng.range(1, 8),
+                    2 => rng.range(9, 64),
+                    _ => rng.range(65, 300),
+                } as usize;
+                e.push((unknown_id(rng), rng.bytes(l)));
+            }
+            "random-unknown-ids"
+        }
+        6 | 7 => {
+            // one defect on a random known id
+            let kn = rng.pick(&KNOWN);
+            let body = defect_body(rng, kn);
+            e.retain(|(i, _)| *i != kn.id);
+            e.push((kn.id, body));
+            "random-one-defect"
+        }
+        8 => {
+            // role-swapped id and/or several defects and/or duplicates
+            for _ in 0..rng.range(1, 3) {
+                let kn = rng.pick(&KNOWN);
+                let body = if rng.bool() { defect_body(rng, kn) } else { legal_body(rng, kn) };
+                e.push((kn.id, body));
+            }
+            "random-multi"
+        }
+        _ => "random-truncated",
+    };
+    rng.shuffle(&mut e);
+    let mut blob = if rng.chance(1, 4) { encode_wide(&e, rng) } else { encode(&e) };
+    if family == "random-truncated" && !blob.is_empty() {
+        let cut = rng.below(blob.len() as u64) as usize;
+        blob.truncate(cut);
+    }
+    (blob, family)
+}
+
+// ------------------------------------------------------------------------------------------------
+// binding / idle timeout
+// ------------------------------------------------------------------------------------------------
+
+struct CountWaker(AtomicUsize);
+impl Wake for CountWaker {
+    fn wake(self: Arc<Self>) {
+        self.0.fetch_add(1, Ordering::SeqCst);
+    }
+}
+
+#[derive(Clone, Debug)]
+struct BindCase {
+    /// role of the endpoint under test (the peer is the other one)
+    local: Sender,
+    params_first: bool,
+    peer_blob: Vec<u8>,
+    observed_scid: Vec<u8>,
+    /// client side: DCID of the client's first Initial
+    origin_dcid: Vec<u8>,
+    /// local max_idle_timeout in ms (0 = none)
+    local_idle: u64,
+    /// go through ArcParameters (lock_guard / remote_ready) instead of the bare struct
+    arc: bool,
+}
+
+impl BindCase {
+    fn to_json(&self) -> Value {
+        json!({"kind": "bind", "local": self.local.name(), "params_first": self.params_first, "peer_blob": hex(&self.peer_blob),
+               "observed_scid": hex(&self.observed_scid), "origin_dcid": hex(&self.origin_dcid), "local_idle": self.local_idle, "arc": self.arc})
+    }
+    fn from_json(v: &Value) -> BindCase {
+        BindCase {
+            local: Sender::from_name(v["local"].as_str().unwrap()),
+            params_first: v["params_first"].as_bool().unwrap(),
+            peer_blob: unhex(v["peer_blob"].as_str().unwrap()),
+            observed_scid: unhex(v["observed_scid"].as_str().unwrap()),
+            origin_dcid: unhex(v["origin_dcid"].as_str().unwrap()),
+            local_idle: v["local_idle"].as_u64().unwrap(),
+            arc: v["arc"].as_bool().unwrap(),
+        }
+    }
+}
+
+/// what the peer's blob declares, read independently
+fn declared(blob: &[u8], id: u64) -> Option<Vec<u8>> {
+    tlv(blob).ok()?.iter().find(|(i, _)| *i == id).map(|(_, b)| b.to_vec())
+}
+
+enum Handle {
+    Bare(Parameters),
+    Arc(ArcParameters),
+}
+
+impl Handle {
+    fn with<T>(&mut self, f: impl FnOnce(&mut Parameters) -> T) -> T {
+        match self {
+            Handle::Bare(p) => f(p),
+            Handle::Arc(a) => {
+                let mut g = a.lock_guard().expect("parameters not in error state");
+                f(&mut g)
+            }
+        }
+    }
+}
+
+/// returns Some((signature, what)) on the first failed expectation
+fn run_bind(rep: &mut Report, c: &BindCase) -> Option<(String, String)> {
+    let peer = if c.local == Sender::Client { Sender::Server } else { Sender::Client };
+    let role = c.local.name();
+    // the peer blob must be a legal one; parse it the way tls.rs does
+    let parsed = match parse(peer, &c.peer_blob) {
+        Ok(Ok(p)) => p,
+        _ => {
+            rep.inconclusive("binding case with a peer blob the library refuses (generator error)");
+            return None;
+        }
+    };
+    let decl_iscid = declared(&c.peer_blob, 0x0f).unwrap_or_default();
+    let iscid_match = decl_iscid == c.observed_scid;
+    let odcid_match = c.local == Sender::Server || declared(&c.peer_blob, 0x00).unwrap_or_default() == c.origin_dcid;
+    let expect_ok = iscid_match && odcid_match;
+    let order = if c.params_first { "params-first" } else { "scid-first" };
+
+    let mut h = {
+        let p = match c.local {
+            Sender::Client => {
+                let mut lp = handy::client_parameters();
+                lp.set(ParameterId::MaxIdleTimeout, Duration::from_millis(c.local_idle)).unwrap();
+                Parameters::new_client(lp, None, ConnectionId::from_slice(&c.origin_dcid))
+            }
+            Sender::Server => {
+                let mut lp = handy::server_parameters();
+                lp.set(ParameterId::MaxIdleTimeout, Duration::from_millis(c.local_idle)).unwrap();
+                Parameters::new_server(lp)
+            }
+        };
+        if c.arc { Handle::Arc(ArcParameters::from(p)) } else { Handle::Bare(p) }
+    };
+    let cw = Arc::new(CountWaker(AtomicUsize::new(0)));
+    let waker = Waker::from(cw.clone());
+
+    let ready_now = |h: &mut Handle| -> (bool, bool) {
+        let mut cx = Context::from_waker(&waker);
+        h.with(|p| (p.is_remote_params_ready(), p.poll_ready(&mut cx).is_ready()))
+    };
+
+    // before anything arrived
+    let (a, b) = ready_now(&mut h);
+    if a || b {
+        return Some((format!("C18.binding.ready-early:{role}:initially"), "ready before anything arrived".into()));
+    }
+    let mut parsed = Some(parsed);
+    let mut step = |h: &mut Handle, params: bool| -> Result<(), QuicError> {
+        if params {
+            match parsed.take().unwrap() {
+                Parsed::C(p) => h.with(|x| x.recv_remote_params(p)),
+                Parsed::S(p) => h.with(|x| x.recv_remote_params(p)),
+            }
+        } else {
+            let cid = ConnectionId::from_slice(&c.observed_scid);
+            h.with(|x| x.initial_scid_from_peer_need_equal(cid))
+        }
+    };
+    // first arrival
+    let first_is_params = c.params_first;
+    let r1 = step(&mut h, first_is_params);
+    let what1 = if first_is_params { "params-only" } else { "scid-only" };
+    if let Err(e) = &r1 {
+        return Some((format!("C18.binding.spurious-error:{role}:after-{what1}"), format!("error after the first of two arrivals: {e}")));
+    }
+    let (a, b) = ready_now(&mut h);
+    if a || b {
+        return Some((format!("C18.binding.ready-early:{role}:after-{what1}"), format!("is_remote_params_ready={a} poll_ready={b} after {what1}")));
+    }
+    if cw.0.load(Ordering::SeqCst) != 0 {
+        return Some((format!("C18.binding.ready-early:{role}:woken-after-{what1}"), "waiters woken before both arrived".into()));
+    }
+    rep.count("binding_not_ready_before_both_checks");
+    // second arrival
+    let r2 = step(&mut h, !first_is_params);
+    let (a, b) = ready_now(&mut h);
+    match (expect_ok, r2) {
+        (true, Ok(())) => {
+            if !(a && b) {
+                return Some((format!("C18.binding.not-ready:{role}:{order}"), format!("both arrived and match but is_remote_params_ready={a} poll_ready={b}")));
+            }
+            if cw.0.load(Ordering::SeqCst) == 0 {
+                return Some((format!("C18.binding.no-wake:{role}:{order}"), "became ready but the task that polled poll_ready was not woken".into()));
+            }
+            rep.count("binding_ready_observed");
+            if c.arc {
+                if let Handle::Arc(arc) = &h {
+                    // remote_ready() must now complete
+                    let fut = arc.remote_ready();
+                    let mut fut = std::pin::pin!(fut);
+                    let mut cx = Context::from_waker(&waker);
+                    match std::future::Future::poll(fut.as_mut(), &mut cx) {
+                        Poll::Ready(Ok(_)) => rep.count("binding_remote_ready_future_completed"),
+                        _ => return Some((format!("C18.binding.not-ready:{role}:remote_ready-future"), "remote_ready() still pending/err after readiness".into())),
+                    }
+                }
+            }
+        }
+        (true, Err(e)) => {
+            return Some((format!("C18.binding.spurious-error:{role}:{order}"), format!("declared ids equal observed ids but: {e}")));
+        }
+        (false, Ok(())) => {
+            let which = if !iscid_match { "iscid" } else { "odcid" };
+            return Some((
+                format!("C18.binding.mismatch-accepted:{role}:{which}:{order}"),
+                format!("declared {which} differs from the observed one but no error was returned (ready={a}/{b}): declared iscid {} observed {}", hex(&decl_iscid), hex(&c.observed_scid)),
+            ));
+        }
+        (false, Err(e)) => {
+            if e.kind() != ErrorKind::TransportParameter {
+                return Some((format!("C18.binding.mismatch-kind:{}", kind_name(e.kind())), format!("mismatch reported as {:?}", e.kind())));
+            }
+            if a || b {
+                return Some((format!("C18.binding.ready-early:{role}:after-mismatch"), "ready although the ids mismatch".into()));
+            }
+            rep.count("binding_mismatch_errors_observed");
+            return None;
+        }
+    }
+    // idle timeout in force
+    let remote_idle = declared(&c.peer_blob, 0x01).and_then(|b| vi(&b)).map(|x| x.0).unwrap_or(0);
+    let got = h.with(|p| p.negotiated_max_idle_timeout());
+    let (class, expect) = match (c.local_idle, remote_idle) {
+        (0, 0) => ("both-zero", None),
+        (0, r) => ("local-zero", Some(r)),
+        (l, 0) => ("remote-zero", Some(l)),
+        (l, r) if l < r => ("local-smaller", Some(l)),
+        (l, r) if l > r => ("remote-smaller", Some(r)),
+        (l, _) => ("equal", Some(l)),
+    };
+    rep.count("idle_timeout_checks");
+    rep.set("idle_classes", vcore::fnv_str(class));
+    let ok = match expect {
+        // no timeout at all: the library says Duration::MAX; None is accepted as well
+        None => got.is_none() || got == Some(Duration::MAX),
+        Some(ms) => got == Some(Duration::from_millis(ms)),
+    };
+    if !ok {
+        return Some((format!("C18.idle-timeout:{class}"), format!("local {} ms, peer {} ms, negotiated_max_idle_timeout() = {:?}", c.local_idle, remote_idle, got)));
+    }
+    None
+}
+
+fn eval_bind(rep: &mut Report, c: &BindCase) {
+    rep.evaluations += 1;
+    rep.count("binding_cases");
+    let r = vcore::panics::catch(|| {
+        let mut sub = Report::new("C18", 0);
+        let r = run_bind(&mut sub, c);
+        (sub, r)
+    });
+    match r {
+        Ok((sub, res)) => {
+            for (k, v) in &sub.counters {
+                rep.add(k, *v);
+            }
+            for (k, s) in &sub.sets {
+                for h in s {
+                    rep.set(k, *h);
+                }
+            }
+            for i in sub.inconclusive {
+                rep.inconclusive(i);
+            }
+            if let Some((sig, what)) = res {
+                rep.violation(sig, format!("{what} :: {}", c.to_json()), c.to_json());
+            }
+        }
+        Err(p) => {
+            let loc = vcore::panics::short_location(&p.location);
+            rep.violation(format!("C18.panic:{loc}"), format!("panic in the binding calls: {} at {loc}", p.message), c.to_json());
+        }
+    }
+}
+
+/// unequal-by-construction variants of a CID
+fn cid_variants(rng: &mut Rng, base: &[u8]) -> Vec<(&'static str, Vec<u8>)> {
+    let mut v = vec![("equal", base.to_vec())];
+    if !base.is_empty() {
+        let mut x = base.to_vec();
+        let i = rng.usize(x.len());
+        x[i] ^= 1 << rng.below(8);
+        v.push(("one-bit", x));
+        let mut x = base.to_vec();
+        let last = x.len() - 1;
+        x[last] = x[last].wrapping_add(1);
+        v.push(("last-byte", x));
+        v.push(("prefix", base[..base.len() - 1].to_vec()));
+        v.push(("empty", vec![]));
+    }
+    if base.len() < 20 {
+        let mut x = base.to_vec();
+        x.push(0);
+        v.push(("zero-extended", x));
+    }
+    if !base.is_empty() {
+        v.push(("random-same-len", rng.bytes(base.len())));
+    }
+    v
+}
+
+const IDLE: [u64; 9] = [0, 1, 999, 1000, 20_000, 30_000, 30_001, 1 << 32, VMAX];
+
+fn binding(rep: &mut Report, rng: &mut Rng, shard: u64, shards: u64, rounds: u64) {
+    let mut idx = 0u64;
+    for round in 0..rounds {
+        for local in [Sender::Client, Sender::Server] {
+            let peer = if local == Sender::Client { Sender::Server } else { Sender::Client };
+            for len in [0usize, 1, 4, 8, 19, 20] {
+                let iscid = rng.bytes(len);
+                let odcid_len = *rng.pick(&[0usize, 1, 8, 20]);
+                let odcid = rng.bytes(odcid_len);
+                let iv = cid_variants(rng, &iscid);
+                let ov = if local == Sender::Client { cid_variants(rng, &odcid) } else { vec![("equal", odcid.clone())] };
+                // every single mismatch, a few double mismatches, and the matching pair several times
+                let mut pairs: Vec<(&'static str, Vec<u8>, &'static str, Vec<u8>)> = vec![];
+                for (iname, observed) in &iv {
+                    pairs.push((*iname, observed.clone(), "equal", odcid.clone()));
+                }
+                for (oname, origin) in ov.iter().skip(1) {
+                    pairs.push(("equal", iscid.clone(), *oname, origin.clone()));
+                    let (iname, observed) = rng.pick(&iv).clone();
+                    pairs.push((iname, observed, *oname, origin.clone()));
+                }
+                for _ in 0..3 {
+                    pairs.push(("equal", iscid.clone(), "equal", odcid.clone()));
+                }
+                {
+                    for (iname, observed, oname, origin) in &pairs {
+                        for params_first in [true, false] {
+                            idx += 1;
+                            if idx % shards != shard {
+                                // keep the generator streams aligned across shards
+                                let _ = rng.next_u64();
+                                continue;
+                            }
+                            let mut r = rng.fork(idx);
+                            // peer blob: mandatory ids with the declared CIDs + random other legal ids
+                            let mut e: Vec<Ent> = vec![(0x0f, iscid.clone())];
+                            if peer == Sender::Server {
+                                e.push((0x00, odcid.clone()));
+                            }
+                            let remote_idle = *r.pick(&IDLE);
+                            let has_idle = remote_idle != 0 || r.bool();
+                            for kn in KNOWN.iter().filter(|k| allowed(peer, k) && !matches!(k.id, 0x00 | 0x0f | 0x01)) {
+                                if r.chance(1, 3) {
+                                    e.push((kn.id, legal_body(&mut r, kn)));
+                                }
+                            }
+                            if has_idle {
+                                e.push((0x01, vi_bytes(remote_idle, 0)));
+                            }
+                            r.shuffle(&mut e);
+                            let c = BindCase {
+                                local,
+                                params_first,
+                                peer_blob: encode(&e),
+                                observed_scid: observed.clone(),
+                                origin_dcid: origin.clone(),
+                                local_idle: *r.pick(&IDLE),
+                                arc: r.bool(),
+                            };
+                            rep.set("binding_shapes", vcore::fnv_str(&format!("{}/{iname}/{oname}/{params_first}/{}", local.name(), c.arc)));
+                            rep.distinct(vcore::fnv_str(&c.to_json().to_string()));
+                            if round == 0 && idx % 97 == 0 {
+                                rep.sample(c.to_json());
+                            }
+                            eval_bind(rep, &c);
+                        }
+                    }
+                }
+            }
+        }
+    }
+}
+
+// ------------------------------------------------------------------------------------------------
+// 0-RTT
+// ------------------------------------------------------------------------------------------------
+
+const ZRTT_IDS: [u64; 8] = [0x04, 0x05, 0x06, 0x07, 0x08, 0x09, 0x0e, 0x20];
+
+fn default_of(id: u64) -> u64 {
+    if id == 0x0e { 2 } else { 0 }
+}
+
+fn eval_0rtt(rep: &mut Report, old: &[u8], new: &[u8]) {
+    rep.evaluations += 1;
+    rep.count("zero_rtt_cases");
+    let replay = json!({"kind": "0rtt", "old": hex(old), "new": hex(new)});
+    // remembered parameters are read back with parse_from_bytes (tls.rs load_zero_rtt)
+    let (Ok(Ok(Parsed::S(o))), Ok(Ok(Parsed::S(n)))) = (parse(Sender::Server, old), parse(Sender::Server, new)) else {
+        rep.inconclusive("0-RTT case with a blob the library refuses (generator error)");
+        return;
+    };
+    let val = |blob: &[u8], id: u64| declared(blob, id).and_then(|b| vi(&b)).map(|x| x.0).unwrap_or(default_of(id));
+    let smaller: Vec<u64> = ZRTT_IDS.iter().copied().filter(|id| val(new, *id) < val(old, *id)).collect();
+    let got = match vcore::panics::catch(|| o.is_0rtt_accepted(&n)) {
+        Ok(g) => g,
+        Err(p) => {
+            let loc = vcore::panics::short_location(&p.location);
+            rep.violation(format!("C18.panic:{loc}"), format!("is_0rtt_accepted panicked: {}", p.message), replay);
+            return;
+        }
+    };
+    if got {
+        rep.count("zero_rtt_accepted");
+    } else {
+        rep.count("zero_rtt_refused");
+    }
+    if got && !smaller.is_empty() {
+        let name = known(smaller[0]).unwrap().name;
+        rep.violation(
+            format!("C18.0rtt.accepted-smaller:{name}"),
+            format!("remembered {name} = {} but new = {}: 0-RTT still accepted", val(old, smaller[0]), val(new, smaller[0])),
+            replay,
+        );
+    } else if !got && smaller.is_empty() {
+        rep.violation("C18.0rtt.refused-no-smaller", "no new limit is smaller than the remembered one but 0-RTT is refused".to_string(), replay);
+    }
+}
+
+fn server_blob_with(rng: &mut Rng, vals: &[(u64, Option<u64>)]) -> Vec<u8> {
+    let mut e = minimal_set(rng, Sender::Server);
+    for (id, v) in vals {
+        if let Some(v) = v {
+            e.push((*id, vi_bytes(*v, 0)));
+        }
+    }
+    rng.shuffle(&mut e);
+    encode(&e)
+}
+
+fn zero_rtt(rep: &mut Report, rng: &mut Rng, shard: u64, shards: u64, random: u64) {
+    // table: one id differs, all (old, new) pairs over a small value set incl. absent
+    let mut idx = 0u64;
+    for id in ZRTT_IDS {
+        let lo = if id == 0x0e { 2 } else { 0 };
+        let hi = if id == 0x08 || id == 0x09 { P60 } else { VMAX };
+        let vals: Vec<Option<u64>> = vec![None, Some(lo), Some(lo + 1), Some(3), Some(100), Some(101), Some(1 << 20), Some(hi - 1), Some(hi)];
+        for a in &vals {
+            for b in &vals {
+                idx += 1;
+                if idx % shards != shard {
+                    continue;
+                }
+                // the other seven: equal, or new larger
+                let mut ov = vec![(id, *a)];
+                let mut nv = vec![(id, *b)];
+                for other in ZRTT_IDS.iter().filter(|x| **x != id) {
+                    let base = legal_value(rng, *other).min(P60 - 1).max(2);
+                    ov.push((*other, Some(base)));
+                    nv.push((*other, Some(base + rng.below(2))));
+                }
+                eval_0rtt(rep, &server_blob_with(rng, &ov), &server_blob_with(rng, &nv));
+            }
+        }
+    }
+    for _ in 0..random {
+        let mut ov = vec![];
+        let mut nv = vec![];
+        for id in ZRTT_IDS {
+            let lo = if id == 0x0e { 2 } else { 0 };
+            let base = lo + rng.below(1000);
+            let o = if rng.chance(1, 6) { None } else { Some(base) };
+            let n = match rng.below(8) {
+                0 => None,
+                1 => Some(base.saturating_sub(1).max(lo)),
+                2 => Some(base + 1),
+                _ => Some(base),
+            };
+            ov.push((id, o));
+            nv.push((id, n));
+        }
+        eval_0rtt(rep, &server_blob_with(rng, &ov), &server_blob_with(rng, &nv));
+    }
+}
+
+// ------------------------------------------------------------------------------------------------
+
+fn replay(rep: &mut Report, v: &Value) {
+    match v["kind"].as_str().unwrap_or("") {
+        "parse" => {
+            let sender = Sender::from_name(v["sender"].as_str().unwrap());
+            eval_blob(rep, sender, &unhex(v["blob"].as_str().unwrap()), v["family"].as_str().unwrap_or("replay"));
+        }
+        "bind" => eval_bind(rep, &BindCase::from_json(v)),
+        "0rtt" => eval_0rtt(rep, &unhex(v["old"].as_str().unwrap()), &unhex(v["new"].as_str().unwrap())),
+        other => rep.inconclusive(format!("unknown replay kind {other:?}")),
+    }
+}
+
+pub fn run(args: &Args, rep: &mut Report) {
+    rep.rule = "case = (sender role, transport-parameter blob) or (role, arrival order, declared/observed CIDs, idle values) or \
+                (remembered, new) server sets; distinct = distinct case bytes; non-trivial = the blob carries at least one \
+                defined id besides the mandatory ones, or is malformed, or the case is a binding / 0-RTT case"
+        .into();
+    if let Some(path) = args.get("replay") {
+        let v: Value = serde_json::from_str(&std::fs::read_to_string(path).unwrap()).unwrap();
+        let v = if v.get("replay").is_some() { v["replay"].clone() } else { v };
+        replay(rep, &v);
+        return;
+    }
+    let thorough = args.get("tier") == Some("thorough");
+    let shard = args.u64("shard", 0);
+    let shards = args.u64("shards", 1).max(1);
+    let seed = args.seed();
+
+    // 1. deterministic table (same base sets in all shards, strided)
+    let base = Rng::new(seed ^ 0xc18_7ab1e);
+    table(rep, &base, shard, shards);
+    rep.exhaustive = Some(true);
+
+    // 2. library's own sets
+    let mut rng = Rng::new(seed ^ 0xc18).fork(shard);
+    handy_sets(rep, &mut rng);
+
+    // 3. random blobs
+    let n = args.budget(if thorough { 400_000 } else { 30_000 });
+    for i in 0..n {
+        let sender = if rng.bool() { Sender::Client } else { Sender::Server };
+        let (blob, family) = random_blob(&mut rng, sender);
+        let nontrivial = match tlv(&blob) {
+            Err(()) => true,
+            Ok(e) => e.iter().any(|(id, _)| known(*id).is_some() && *id != 0x0f && *id != 0x00),
+        };
+        if nontrivial {
+            rep.distinct(vcore::fnv(&[&[sender as u8][..], &blob[..]].concat()));
+        }
+        if i < 3 {
+            rep.sample(json!({"kind": "parse", "sender": sender.name(), "blob": hex(&blob), "family": family}));
+        }
+        eval_blob(rep, sender, &blob, family);
+    }
+    rep.add("random_blobs", n);
+
+    // 4. binding + idle timeout
+    let mut brng = Rng::new(seed ^ 0xc18_b1d);
+    binding(rep, &mut brng, shard, shards, if thorough { 200 } else { 16 });
+
+    // 5. 0-RTT
+    zero_rtt(rep, &mut rng, shard, shards, if thorough { 20_000 } else { 2_000 });
 }
